@@ -4,7 +4,7 @@ CONSTANTS
   WH = {1}
   WS = {}
   ParentCancels = FALSE
-  DirectStops = TRUE
+  DirectStops = FALSE
 INIT MInit
 NEXT MNext
 INVARIANTS MTypeOK ViewIsLastDelivered QuiescentViewExact HealthyExact StoppedExact HealthyLatchExact MNoDoubleClose FailureReportedOnce MListenerOrder MNotifierNeverBlocks MWaitersExact StartResultExact
